@@ -242,6 +242,51 @@ func Main(spec *Spec, tier string) int {
 			fmt.Printf("  violation in scenario %q: %s\n", r.Name, f.Verdict)
 		}
 	}
+	if os.Getenv("VERIF_TRIAGE") != "" {
+		type cl struct {
+			n      int
+			common map[string]bool
+			ex     []string
+		}
+		cls := map[string]*cl{}
+		for _, r := range results {
+			for _, f := range r.Failures {
+				c := cls[f.Verdict]
+				if c == nil {
+					c = &cl{common: map[string]bool{}}
+					for _, a := range r.Atoms {
+						c.common[a] = true
+					}
+					cls[f.Verdict] = c
+				}
+				have := map[string]bool{}
+				for _, a := range r.Atoms {
+					have[a] = true
+				}
+				for a := range c.common {
+					if !have[a] {
+						delete(c.common, a)
+					}
+				}
+				c.n++
+				if len(c.ex) < 4 {
+					c.ex = append(c.ex, r.Name)
+				}
+			}
+		}
+		fmt.Println("==== TRIAGE ====")
+		for v, c := range cls {
+			var cm []string
+			for a := range c.common {
+				cm = append(cm, a)
+			}
+			sort.Strings(cm)
+			fmt.Printf("%5d  %s\n       common: %s\n", c.n, v, strings.Join(cm, ","))
+			for _, e := range c.ex {
+				fmt.Printf("       e.g. %s\n", e)
+			}
+		}
+	}
 	known := fs.Report(spec.ID)
 	ev.KnownFindings = known
 	ev.Violations = violations
